@@ -3,6 +3,10 @@ Proof: coq/C11 (work-list model of Fetcher with an explicit schedule; terminatio
 metabook, batch size and EVERY schedule the final archive = the declarative `needed`).
 Tie: the real make_nuwiki/Fetcher/MwApi against a synthetic MediaWiki below MwApi (vt/harness/c11_*.py);
 the archive read back with nuwiki.Adapt is compared with the extracted model's final state and spec.
+Query continuation (sapi.py: merge_data, _handle_query_continue, _do_request): coq/C11/ModelContinue.v with the
+give-up condition TRANSLATED from the source on every run (vt/gen/c11_sapi.py -> Gen_continue.v, which also pins the
+statements of the functions and every write to qccount); proved: continuation is per query, no cross-query state,
+any result limit >= 1 is invisible; tied to the real client on scripted servers (vt/harness/c11_continue.py).
 Search: the property's own oracle (vt/harness/c11_oracle.py) on the archive."""
 import atexit
 import concurrent.futures
@@ -35,6 +39,10 @@ def fast_tmp():
         base = os.environ.get("VERIF_C11_TMP", "/dev/shm")
         d = core.scratch()
         if os.path.isdir(base) and os.access(base, os.W_OK):
+            for fn in os.listdir(base):          # left behind by a run that was killed
+                m = re.fullmatch(r"verif-c11-(\d+)", fn)
+                if m and not os.path.exists("/proc/%s" % m.group(1)):
+                    shutil.rmtree(os.path.join(base, fn), ignore_errors=True)
             d = os.path.join(base, "verif-c11-%d" % os.getpid())
             shutil.rmtree(d, ignore_errors=True)
             os.makedirs(d)
@@ -340,6 +348,68 @@ def gen_script(rng, cid):
     return {"id": cid, "script": script, "order": order}
 
 
+def gen_sliced(rng, cid):
+    """a wiki that serves lists of 0-12 values in slices of `limit` values, next offset = continuation value
+    (sliced_server of coq/C11/ModelSliced.v), written out as a script for the real client"""
+    nq = rng.randint(1, 5)
+    limit = rng.choice([1, 1, 2, 3, 5, 50])
+    table = [[q, [rng.randint(0, 99) for _ in range(rng.choice([0, 1, 2, 3, 5, 8, 12]))]] for q in range(1, nq + 1)]
+    script = []
+    for q, vals in table:
+        slices = []
+        off = 0
+        while True:
+            rest = vals[off:]
+            if len(rest) <= limit:
+                slices.append([[[q, rest]], None])
+                break
+            slices.append([[[q, rest[:limit]]], off + limit])
+            off += limit
+        script.append([q, slices])
+    order = [rng.randint(1, nq) for _ in range(rng.randint(1, 14))]
+    return {"id": cid, "script": script, "order": order, "sliced": {"limit": limit, "table": table}}
+
+
+def gen_val(rng, depth):
+    r = rng.random()
+    if depth <= 0 or r < 0.25:
+        return "a%d" % rng.randint(0, 9) if rng.random() < 0.5 else [rng.randint(0, 99) for _ in range(rng.randint(0, 3))]
+    return {str(k): gen_val(rng, depth - 1) for k in rng.sample(range(1, 7), rng.randint(0, 4))}
+
+
+def gen_merge_pair(rng, depth):
+    """(dst, src) with many common keys; 10% of the common positions hold values of different types"""
+    r = rng.random()
+    if r < 0.1:
+        return gen_val(rng, depth), gen_val(rng, depth)          # unrelated: often a type mismatch
+    if depth <= 0 or r < 0.3:
+        if rng.random() < 0.4:
+            return "a%d" % rng.randint(0, 9), "a%d" % rng.randint(0, 9)
+        return [rng.randint(0, 99) for _ in range(rng.randint(0, 3))], [rng.randint(0, 99) for _ in range(rng.randint(0, 3))]
+    dst, src = {}, {}
+    keys = rng.sample(range(1, 7), rng.randint(0, 5))
+    for k in keys:
+        where = rng.random()
+        if where < 0.5:
+            dst[str(k)], src[str(k)] = gen_merge_pair(rng, depth - 1)
+        elif where < 0.75:
+            dst[str(k)] = gen_val(rng, depth - 1)
+        else:
+            src[str(k)] = gen_val(rng, depth - 1)
+    src = dict(sorted(src.items(), key=lambda kv: rng.random()))     # src.items() order is independent of dst's
+    return dst, src
+
+
+def coq_val(v):
+    if v is None:
+        return "None"
+    if isinstance(v, str):
+        return "(VAtom %d)" % int(v[1:])
+    if isinstance(v, list):
+        return "(VList %s)" % coq_list("%d" % x for x in v)
+    return "(VDict %s)" % coq_list("(%d, %s)" % (int(k), coq_val(x)) for k, x in v.items())
+
+
 def coq_list(xs):
     return "[" + "; ".join(xs) + "]"
 
@@ -354,20 +424,23 @@ def coq_opt(c):
 
 def continue_tie(run, src):
     """the real MwApi._do_request on scripted servers = run_queries gen_stop (srv_of script) of ModelContinue.v"""
-    n = 150 if run.tier == "quick" else 450
-    cases = [gen_script(run.rng, i) for i in range(n)]
-    rc, out = core.run_impl("vt.harness.c11_continue", [], src=src, input="".join(json.dumps(c) + "\n" for c in cases), timeout=600)
+    n = 150 if run.tier == "quick" else 300          # <= 500 Eval per generated file
+    cases = [gen_sliced(run.rng, i) if i % 3 == 2 else gen_script(run.rng, i) for i in range(n)]
+    nmerge = 150 if run.tier == "quick" else 200
+    merges = [{"id": "m%d" % i, "merge": list(gen_merge_pair(run.rng, 3))} for i in range(nmerge)]
+    cases_in = cases + merges
+    rc, out = core.run_impl("vt.harness.c11_continue", [], src=src, input="".join(json.dumps(c) + "\n" for c in cases_in), timeout=600)
     res = {}
     for ln in out.splitlines():
         if ln.startswith("{"):
             r = json.loads(ln)
             res[r["id"]] = r
     dis = []
-    if rc != 0 or len(res) != n:
-        dis.append("harness vt.harness.c11_continue failed: rc=%s, %d/%d results: %s" % (rc, len(res), n, out[-400:]))
-        return n, dis, {}
+    if rc != 0 or len(res) != len(cases_in):
+        dis.append("harness vt.harness.c11_continue failed: rc=%s, %d/%d results: %s" % (rc, len(res), len(cases_in), out[-400:]))
+        return len(cases_in), dis, {}
     rel = "C11/cases_%d.v" % os.getpid()
-    lines = ["From Coq Require Import List NArith Bool.", "From MW Require Import C11.ModelContinue C11.Gen_continue.",
+    lines = ["From Coq Require Import List NArith Bool.", "From MW Require Import C11.ModelContinue C11.Gen_continue C11.ModelSliced C11.ModelMerge.",
              "Import ListNotations.", "Open Scope N_scope."]
     todo = []
     rounds = 0
@@ -381,8 +454,22 @@ def continue_tie(run, src):
         stopped += 1 if any(sl[i][1] is not None and sl[i][1] == sl[i - 1][1] for _q, sl in c["script"] for i in range(1, len(sl))) else 0
         sc = coq_list("(%d, %s)" % (q, coq_list("(%s, %s)" % (coq_data(d), coq_opt(k)) for d, k in sl)) for q, sl in c["script"])
         exp = "(%d, %s)" % (r["qccount"], coq_list("Some %s" % coq_data(a) for a in r["answers"]))
-        lines.append("Eval vm_compute in (result_eqb (run_queries gen_stop (srv_of %s) 60 0 %s) %s)."
-                     % (sc, coq_list("%d" % q for q in c["order"]), exp))
+        srv = "(srv_of %s)" % sc
+        if c.get("sliced"):
+            # the script was written out from sliced_server: the model side evaluates sliced_server itself
+            srv = "(sliced_server %d%%nat (db_of %s))" % (c["sliced"]["limit"], coq_list("(%d, %s)" % (q, coq_list("%d" % v for v in vs)) for q, vs in c["sliced"]["table"]))
+        lines.append("Eval vm_compute in (result_eqb (run_queries gen_stop %s 60 0 %s) %s)."
+                     % (srv, coq_list("%d" % q for q in c["order"]), exp))
+        todo.append(c)
+    nerr = 0
+    for c in merges:
+        r = res[c["id"]]
+        if "error" in r:
+            dis.append("merge %s: real merge_data raised: %s" % (c["id"], r["error"][:300]))
+            continue
+        nerr += 1 if r["merged"] is None else 0
+        lines.append("Eval vm_compute in (oval_eqb (merge_val %s %s) %s)."
+                     % (coq_val(c["merge"][0]), coq_val(c["merge"][1]), "None" if r["merged"] is None else "(Some %s)" % coq_val(r["merged"])))
         todo.append(c)
     path = os.path.join(core.COQ, rel)
     try:
@@ -405,9 +492,13 @@ def continue_tie(run, src):
     else:
         for c, v in zip(todo, verdicts):
             if v != "true":
+                if "merge" in c:
+                    dis.append("merge %s: real merge_data(%s) = %s != merge_val" % (c["id"], json.dumps(c["merge"])[:300], json.dumps(res[c["id"]])[:300]))
+                    continue
                 dis.append("script %s: real client %s != model; script %s order %s"
                            % (c["id"], json.dumps(res[c["id"]])[:300], json.dumps(c["script"])[:300], c["order"]))
-    return n, dis, {"scripts": n, "max_qccount_of_one_client": rounds, "scripts_with_a_repeated_continuation_value": stopped}
+    return len(cases_in), dis, {"merge_data_pairs": nmerge, "merge_data_pairs_with_ValueError": nerr, "scripts": n, "max_qccount_of_one_client": rounds, "scripts_with_a_repeated_continuation_value": stopped,
+                     "scripts_from_sliced_server": sum(1 for c in cases if c.get("sliced"))}
 
 
 # ----------------------------------------------------------------------------- check
@@ -601,6 +692,9 @@ def check(run):
     run.trusted = ["Coq 8.16.1 kernel (coqc); vm_compute only in the Examples",
                    "extraction (ExtrOcamlBasic directives only) + ocaml/c11/driver.ml (parser/printer)",
                    "hand-written model coq/C11/Model.v of Fetcher (fetch.py as of the fix commits 4906af9 8808eaf 8d69ad3 3ee1a3d); tie = differential run against the real code",
+                   "hand-written model coq/C11/ModelContinue.v of merge_data/_handle_query_continue/_do_request (results abstracted to dicts of "
+                   "lists; statements pinned and the give-up condition translated by vt/gen/c11_sapi.py; tie = real client on scripted servers); "
+                   "coq/C11/ModelSliced.v (a wiki serving slices of `limit` values) is a model of the SERVER, tied only through c11_wiki.py's behaviour",
                    "synthetic MediaWiki vt/harness/c11_wiki.py (legacy query-continue protocol, MediaWiki transclusion/redirect semantics as documented there)",
                    "abstraction archive -> model items in vt/props/c11.py (texts identified with the revision whose expansion they equal)",
                    "gevent: a greenlet runs until it blocks; sqlitedict, nuwiki.Adapt (read back)"]
@@ -624,7 +718,8 @@ def check(run):
         except Exception as e:
             ncont, cdis, cstats = 0, ["continuation tie could not run: %s: %s" % (type(e).__name__, str(e)[-300:])], {}
         run.tie("real MwApi._do_request/_handle_query_continue/merge_data on scripted servers (several queries on one client, "
-                "slices, repeated continuation values) = run_queries gen_stop (srv_of script) of coq/C11/ModelContinue.v", ncont, cdis)
+                "slices, repeated continuation values, servers written out from sliced_server) = run_queries gen_stop (srv_of script) of "
+                "coq/C11/ModelContinue.v; real sapi.merge_data on random nested values = merge_val of coq/C11/ModelMerge.v", ncont, cdis)
         run.coverage["continuation_model"] = dict(cstats, translated=info)
     try:
         exe = build()
